@@ -142,13 +142,13 @@ func VP_C12_queryinfo() {
 //vp:set user 2 3
 //vp:set maxpaths 200000 900000
 //vp:set budget 300 1500
-//vp:bounds selection mode in {roundrobin, unsigned, any}; 1..hosts entries prefix++[placeholder]++suffix; non-empty user name <= user bytes; the file's host = chosen entry with the user substituted (any mode: arbitrary host <= 4 bytes); same client address at issuance and use; both VerifyClientIP settings
+//vp:bounds selection mode in {roundrobin, unsigned, any}; 1..hosts entries prefix++[placeholder[placeholder]]++suffix (an entry may carry the placeholder twice; the download handler substitutes the first, see VP_C12_download); non-empty user name <= user bytes; the file's host = chosen entry with the user substituted (any mode: arbitrary host <= 4 bytes); same client address at issuance and use; both VerifyClientIP settings
 //vp:assume the IdP's userinfo subject equals the session user name (DESIGN 7.14): the tunnel user is taken from the IdP, the file host from the session
 //vp:reach accepted
 func VP_C12_accept() {
 	mode := []string{"roundrobin", "unsigned", "any"}[vpIntRange("mode", 0, 2)]
 	HostSelection = mode
-	Hosts = vpHostList(vpIntRange("nhosts", 1, vpParam("hosts")), vpParam("affix"))
+	Hosts = vpHostList2(vpIntRange("nhosts", 1, vpParam("hosts")), vpParam("affix"), true)
 	user := vpString("user", vpParam("user"))
 	vpAssume(user != "")
 	VerifyClientIP = vpBool("verify")
